@@ -32,7 +32,7 @@ package cache
 //@ pred LeafVal(l ref) := heapsel("ctree.Tree.leafBranch", l)
 //@ pred StoredWf(t *Target) := forall k PKey :: tstore[t.t][k] != nil ==>
 //@   isa(LeafVal(tstore[t.t][k]).(*pb.Notification)) && NotiWf(LeafVal(tstore[t.t][k]).(*pb.Notification))
-//@   && len(LeafVal(tstore[t.t][k]).(*pb.Notification).Update) >= 1
+//@   && len(LeafVal(tstore[t.t][k]).(*pb.Notification).Update) >= 1 && pnonempty(k)
 
 // Index path of the leaf a notification addresses (atomic: the prefix only).
 //@ pred Suffix(n *pb.Notification) := ite(n.Atomic, nil, n.Update[0].Path)
@@ -57,7 +57,7 @@ package cache
 //@   ensures res0 != nil && fresh(res0)
 
 //@ func (*Target).gnmiUpdate
-//@   props C02 C03 C12 C15
+//@   props C02 C03 C12 C14 C15
 //@   requires TargetWf(t) && NotiWf(n) && len(n.Update) >= 1 && n.Prefix != nil && n.Prefix.Target != "" && StoredWf(t) && CountersRegistered()
 //@   modifies ghost tstore, ghost treal, ghost intAdded, heap(ctree.Tree.leafBranch), t.sync
 //@   effect owed := ite(res0 != nil, owed ++ unit(res0), owed)
@@ -75,6 +75,7 @@ package cache
 //@   ensures [other-leaves-kept] forall r ref :: r != L0(t, n) ==> LeafVal(r) == old(LeafVal(r))
 //@   ensures [other-trees-kept] forall u ref :: u != t.t ==> tstore[u] == old(tstore[u]) && treal[u] == old(treal[u])
 //@   ensures [stored-wf] StoredWf(t)
+//@   ensures [never-removes C14] forall k PKey :: old(tstore[t.t][k]) != nil ==> tstore[t.t][k] == old(tstore[t.t][k])
 // C03: the change feed. A leaf is returned (to be announced) iff the tree changed and the change is not suppressed;
 // suppression happens only with event-driven emulation on, for a non-atomic update whose value equals the stored one.
 //@   ensures [announce-the-changed-leaf C03] res0 != nil ==> res1 == nil && res0 == L0(t, n) && LeafVal(res0) == box(n)
@@ -119,7 +120,7 @@ package cache
 //@   maintains forall i int :: 0 <= i && i < len(leaves) ==> leaves[i] != nil
 
 //@ func (*Target).gnmiRemove
-//@   props C02 C03 C12 C15
+//@   props C02 C03 C12 C14 C15
 //@   requires TargetWf(t) && NotiWf(n) && len(n.Delete) >= 1 && n.Prefix != nil && n.Prefix.Target != "" && StoredWf(t) && CountersRegistered()
 //@   modifies ghost tstore, ghost treal, ghost intAdded
 //@   effect owed := owed ++ view(res0)
@@ -179,7 +180,7 @@ package cache
 //@ pred Single(n *pb.Notification) := !n.Atomic && len(n.Update) == 1 && len(n.Delete) == 0
 
 //@ func (*Target).GnmiUpdate
-//@   props C03 C12 C15 C02
+//@   props C03 C12 C14 C15 C02
 //@   requires TargetWf(t) && NotiWf(n) && n.Prefix != nil && n.Prefix.Target != "" && StoredWf(t) && CountersRegistered()
 //@   requires len(owed) == 0 && Unstored(n)
 //@   modifies ghost tstore, ghost treal, ghost intAdded, ghost owed, ghost tsSeen, ghost updSteps, ghost delSteps, heap(ctree.Tree.leafBranch), t.sync, t.ts, n.Update, n.Delete
@@ -215,3 +216,115 @@ package cache
 //@   locks c
 //@   requires c != nil
 //@   ensures res0 == c.targets[target]
+
+// ==== C14: Reset / Remove / Add, target isolation =============================
+
+// wiped[target]: origins for which a whole-origin delete (path ["*"]) has been
+// handed to the change feed; origin "" is the whole-target delete.
+//@ ghost wiped gmap[string]set[string]
+//@ pred AsNoti(l ref) := LeafVal(l).(*pb.Notification)
+//@ pred IsWipe(l ref) := l != nil && isa(LeafVal(l).(*pb.Notification)) && AsNoti(l) != nil && AsNoti(l).Prefix != nil
+//@   && len(AsNoti(l).Update) == 0 && len(AsNoti(l).Delete) == 1 && AsNoti(l).Delete[0] != nil && len(AsNoti(l).Delete[0].Elem) == 1
+//@   && AsNoti(l).Delete[0].Elem[0] != nil && AsNoti(l).Delete[0].Elem[0].Name == "*" && len(AsNoti(l).Delete[0].Element) == 0
+//@ pred WipedAfter(l ref) := ite(IsWipe(l), upd(wiped, AsNoti(l).Prefix.Target, union1(wiped[AsNoti(l).Prefix.Target], AsNoti(l).Prefix.Origin)), wiped)
+
+//@ pred Kept(t *Target) := forall k PKey :: old(tstore[t.t][k]) != nil ==> tstore[t.t][k] == old(tstore[t.t][k])
+//@ pred OthersKept(t *Target) := forall u ref :: u != t.t ==> tstore[u] == old(tstore[u]) && treal[u] == old(treal[u])
+//@ pred Ready(t *Target) := TargetWf(t) && StoredWf(t) && CountersRegistered() && t.name != ""
+
+//@ func deleteNoti
+//@   props C14 C03 C12
+//@   requires Now != nil
+//@   invariant 0: fresh(pe) && len(pe) == $i && cap(pe) == len(p) && (forall j int :: 0 <= j && j < $i ==> pe[j] != nil && fresh(pe[j]) && pe[j].Name == p[j])
+//@   ensures [shape C14] fresh(res0) && res0 != nil && res0.Timestamp == wrap64s(nowval) && res0.Prefix != nil && res0.Prefix.Target == t && res0.Prefix.Origin == o
+//@   ensures [single-delete C14] len(res0.Delete) == 1 && res0.Delete[0] != nil && len(res0.Update) == 0 && !res0.Atomic && len(res0.Delete[0].Element) == 0
+//@   ensures [path C14] len(res0.Delete[0].Elem) == len(p) && (forall j int :: 0 <= j && j < len(p) ==> res0.Delete[0].Elem[j] != nil && res0.Delete[0].Elem[j].Name == p[j])
+
+//@ func metaNoti
+//@   props C14 C15 C12
+//@   requires Now != nil && (v != nil && v.Value != nil ==> payload(v.Value) != nil)
+//@   invariant 0: fresh(pe) && len(pe) == $i && cap(pe) == len($range)
+//@   ensures fresh(res0) && NotiWf(res0) && len(res0.Update) == 1 && len(res0.Delete) == 0 && !res0.Atomic
+//@   ensures res0.Prefix != nil && res0.Prefix.Target == t && res0.Update[0].Val == v && res0.Timestamp == wrap64s(nowval)
+//@ func metaNotiBool
+//@   props C14 C15 C12
+//@   requires Now != nil
+//@   ensures fresh(res0) && NotiWf(res0) && len(res0.Update) == 1 && len(res0.Delete) == 0 && !res0.Atomic && res0.Prefix != nil && res0.Prefix.Target == t
+//@ func metaNotiInt
+//@   props C14 C15 C12
+//@   requires Now != nil
+//@   ensures fresh(res0) && NotiWf(res0) && len(res0.Update) == 1 && len(res0.Delete) == 0 && !res0.Atomic && res0.Prefix != nil && res0.Prefix.Target == t
+//@ func metaNotiStr
+//@   props C14 C15 C12
+//@   requires Now != nil
+//@   ensures fresh(res0) && NotiWf(res0) && len(res0.Update) == 1 && len(res0.Delete) == 0 && !res0.Atomic && res0.Prefix != nil && res0.Prefix.Target == t
+
+//@ func metaValue
+//@   props C12 C14
+//@   requires isa(v.(*pb.Notification)) && v.(*pb.Notification) != nil ==> NotiWf(v.(*pb.Notification))
+//@   ensures res0 != nil && res0.Value != nil ==> payload(res0.Value) != nil
+
+//@ func (*Target).resetTimestamp
+//@   props C14 C15
+//@   locks t
+//@   requires t != nil
+//@   modifies t.ts
+//@   ensures [cleared C14] tinst(t.ts) == tinst(zero("time.Time"))
+
+// The callback handed to updateMeta / generateMetaUpdates is the registered feed callback.
+//@ func param clients in (*Target).generateMetaUpdates (l)
+//@   requires l != nil && len(owed) >= 1 && l == first(owed)
+//@   effect owed := sub(owed, 1, len(owed))
+//@   effect wiped := WipedAfter(l)
+//@ func param clients in (*Target).updateMeta (l)
+//@   requires l != nil && len(owed) >= 1 && l == first(owed)
+//@   effect owed := sub(owed, 1, len(owed))
+//@   effect wiped := WipedAfter(l)
+
+// Regenerating the metadata leaves only adds or rewrites leaves of this target,
+// announcing each accepted change.
+//@ pred MetaGenInv(t *Target) := len(owed) == 0 && StoredWf(t) && Kept(t) && OthersKept(t) && wiped == old(wiped)
+//@ func (*Target).generateMetaUpdates
+//@   props C14 C15 C03 C12
+//@   requires Ready(t) && len(owed) == 0 && clients != nil
+//@   modifies ghost tstore, ghost treal, ghost intAdded, ghost owed, ghost updSteps, heap(ctree.Tree.leafBranch), t.sync
+//@   invariant 0: MetaGenInv(t)
+//@   invariant 1: MetaGenInv(t)
+//@   invariant 2: MetaGenInv(t)
+//@   ensures [only-adds C14] Kept(t)
+//@   ensures [other-targets-untouched C14] OthersKept(t)
+//@   ensures [all-announced C03] len(owed) == 0
+//@   ensures StoredWf(t) && wiped == old(wiped)
+
+//@ func (*Target).updateMeta
+//@   props C14 C15 C03 C12
+//@   locks t
+//@   requires Ready(t) && len(owed) == 0 && clients != nil
+//@   modifies ghost tstore, ghost treal, ghost intAdded, ghost owed, ghost updSteps, heap(ctree.Tree.leafBranch), t.sync
+//@   ensures [only-adds C14] Kept(t)
+//@   ensures [other-targets-untouched C14] OthersKept(t)
+//@   ensures [all-announced C03] len(owed) == 0
+//@   ensures StoredWf(t) && wiped == old(wiped)
+
+// Reset: afterwards only metadata leaves are stored for the target, every leaf
+// that disappeared is covered by an announced whole-origin delete (announced
+// after the tree was written), the timestamp is cleared and the metadata
+// object was cleared before its leaves were regenerated. Nothing of another
+// target changes.
+//@ func (*Target).Reset
+//@   props C14 C04 C03 C12
+//@   requires Ready(t) && len(owed) == 0
+//@   modifies ghost tstore, ghost treal, ghost intAdded, ghost owed, ghost updSteps, ghost wiped, ghost resetDone, heap(ctree.Tree.leafBranch), t.sync, t.ts
+//@   assert at call (*Metadata).Clear#0: [metadata-cleared-first C14] arg0 == t.meta
+//@   set at call field Target.client#0: owed := unit(arg0)
+//@   assert at call field Target.client#0: [tree-written-before-announcing C04 C14] IsWipe(arg0) && AsNoti(arg0).Prefix.Target == t.name && AsNoti(arg0).Prefix.Origin == root
+//@     && (forall k PKey :: tstore[t.t][k] != nil && pnonempty(k) ==> pfirst(k) != root)
+//@   invariant 0: len(owed) == 0 && StoredWf(t) && OthersKept(t)
+//@     && (forall k PKey :: tstore[t.t][k] != nil ==> has($range, pfirst(k)) && (pfirst(k) == "meta" || !has($visited, pfirst(k))))
+//@     && (forall k PKey :: old(tstore[t.t][k]) != nil && tstore[t.t][k] == nil ==> has(wiped[t.name], pfirst(k)))
+//@     && (forall s string :: s != t.name ==> wiped[s] == old(wiped[s]))
+//@   ensures [only-metadata-left C14] forall k PKey :: tstore[t.t][k] != nil ==> pfirst(k) == "meta"
+//@   ensures [removed-leaves-announced C14] forall k PKey :: old(tstore[t.t][k]) != nil && tstore[t.t][k] == nil ==> has(wiped[t.name], pfirst(k))
+//@   ensures [other-targets-untouched C14] OthersKept(t) && (forall s string :: s != t.name ==> wiped[s] == old(wiped[s]))
+//@   ensures [all-announced C03] len(owed) == 0
+//@   ensures StoredWf(t)
